@@ -253,3 +253,18 @@ Example c11_example_check_d20 :
   run_check_promise [0] [[1]; [9;1]; [5;0;5;0;0]; [8;1;0;0]; [5;1;2;0;0]; [7;1;5]]
                         [[]; [1;0;0]; [5;0;0]; [5;0;0;1;0;0]; [5;0;0;2;0;0]; [5;0;0;2;0;0]] = [PropFalse 11%nat 7%nat 5%nat].
 Proof. vm_compute. reflexivity. Qed.
+
+(* error identity under an ended context: an awaiter whose context ended like a deadline (Err() = DeadlineExceeded, error 2) or
+   was cancelled with a cause (error 98) must still be handed context.Canceled (error 1), by Promise (clause 2) and by the
+   container (clause 3); the context's own error / cause is rejected, (0, Canceled) is what the model predicts
+   (seeded change C16_4B: Promise.AwaitWithCancelCh returns context.Cause(ctx)) *)
+Example c11_example_check_context_error_identity :
+  run_check_promise [0] [[1]; [4;0;0;0;0;2;0;0]; [6;0]] [[]; [2;0;0]; [4;0;2]]
+    = [Mismatch 2%nat [4;0;1] [4;0;2]; PropFalse 11%nat 2%nat 2%nat] /\
+  run_check_promise [0] [[1]; [4;2;0;0;0;2;0;0]; [6;0]] [[]; [2;0;0]; [4;0;98]]
+    = [Mismatch 2%nat [4;0;1] [4;0;98]; PropFalse 11%nat 2%nat 2%nat] /\
+  run_check_promise [0] [[8;1;0;0]; [5;0;2;0;0]; [6;0]] [[1;0;0]; [2;0;0]; [4;0;2]]
+    = [Mismatch 2%nat [4;0;1] [4;0;2]; PropFalse 11%nat 3%nat 2%nat] /\
+  run_check_promise [0] [[1]; [4;0;0;0;0;2;0;0]; [6;0]] [[]; [2;0;0]; [4;0;1]] = [] /\
+  run_check_promise [0] [[8;1;0;0]; [5;0;2;0;0]; [6;0]] [[1;0;0]; [2;0;0]; [4;0;1]] = [].
+Proof. vm_compute. repeat split; reflexivity. Qed.
